@@ -119,8 +119,18 @@ class C15(Prop):
                 for phi in SWEEP:
                     Hn = mp.build_nx(case["nodes"], case["edges"], case.get("name", "num"), u=u)
                     shared.append(rs(Fraction(AE3.automated_equation(Hn, Fraction(phi), _fresh(case["root"])))))
+            # ... and asked for the same motif (same name, a new graph object) with OTHER neighbour values, as the message-passing
+            # iteration does on every sweep: the answer follows the values it is given now
+            changed = []
+            pts = case.get("points") or []
+            if len(pts) >= 2:
+                AE4 = AutomatedEquation()
+                for pt in pts + [pts[0]]:
+                    u = {v: Fraction(pt["u"][str(v)]) for v in case["nodes"]}
+                    Hn = mp.build_nx(case["nodes"], case["edges"], case.get("name", "num"), u=u)
+                    changed.append(rs(Fraction(AE4.automated_equation(Hn, Fraction(pt["phi"]), _fresh(case["root"])))))
             return {"poly": mp.poly_canon(val), "components": sorted(sorted(c) for c in comps),
-                    "n_components": len(comps), "numeric": numeric, "numeric_shared": shared}
+                    "n_components": len(comps), "numeric": numeric, "numeric_shared": shared, "numeric_changed_u": changed}
         AE = AutomatedEquation()
         vals, fresh = [], []
         for c in case["calls"]:
@@ -162,6 +172,14 @@ class C15(Prop):
                                      {v: Fraction(pt["u"][str(v)]) for v in case["nodes"]}, Fraction(pt["phi"]))
                 if abs(Fraction(got) - want) > Fraction(1, 10 ** 11):      # the accumulator of the real code is a float
                     f.append(f"expectation-at-point: at phi = {pt['phi']}, u = {pt['u']} the value is {got}, the exact expectation is {want}")
+                    break
+            pts = case.get("points") or []
+            for pt, got in zip(pts + pts[:1], obs.get("numeric_changed_u") or []):
+                want = exact_numeric(case["nodes"], [tuple(e) for e in case["edges"]], case["root"],
+                                     {v: Fraction(pt["u"][str(v)]) for v in case["nodes"]}, Fraction(pt["phi"]))
+                if abs(Fraction(got) - want) > Fraction(1, 10 ** 11):
+                    f.append(f"history: one evaluator given the same motif with other neighbour values answers {got} at phi = {pt['phi']}, "
+                             f"u = {pt['u']}; the exact expectation is {want}")
                     break
             if obs.get("numeric_shared") and case.get("points"):
                 pt = case["points"][0]
